@@ -438,7 +438,7 @@ def _run(prop, tier, seed, replay, wd):
         cmp_, pv, mv = rows[t["tid"]][:3]
         pvs[pv] += 1
         cmps[cmp_] += 1
-        if mv == "violated":
+        if mv == "violated" and pv != "violated":      # (both violated: the specification mirrors a defect of the library - reported below)
             raise E.MachineryError("the specification violates its own formula on a recorded build: " + json.dumps([S.render_doc(d) for d in info[t["tid"]][0]]))
         if pv == "violated":
             bad.append(t["tid"])
